@@ -411,6 +411,14 @@ func ClientRun(osenv *rsyncos.Env, opts *rsyncopts.Options, conn io.ReadWriter, 
 	if err := c.WriteInt32(exclusionListEnd); err != nil {
 		return nil, err
 	}
+	if opts.DeleteMode() {
+		// entries excluded by the user's rules are protected from --delete
+		excl, err := sender.ParseFilterRules(opts.FilterRules())
+		if err != nil {
+			return nil, err
+		}
+		rt.Protect = excl.Matches
+	}
 
 	if opts.DebugGTE(rsyncopts.DEBUG_RECV, 1) {
 		osenv.Logf("exclusion list sent")
